@@ -12,6 +12,11 @@ pub struct LoggingConcat {
     pub fail_at: Option<usize>,
     pub sort: bool,
 }
+thread_local! {
+    /// when armed (Some), every merge call of this thread is recorded as (key it was given, value it returned):
+    /// the log survives the merge function being moved into a sorter or a merger
+    pub static CALL_LOG: RefCell<Option<Vec<(Vec<u8>, Vec<u8>)>>> = RefCell::new(None);
+}
 impl MergeFunction for LoggingConcat {
     type Error = String;
     fn merge<'a>(&self, key: &[u8], values: &[Cow<'a, [u8]>]) -> Result<Cow<'a, [u8]>, String> {
@@ -21,12 +26,14 @@ impl MergeFunction for LoggingConcat {
             return Err("merge failure".to_string());
         }
         if values.len() == 1 && !self.sort {
+            CALL_LOG.with(|l| if let Some(v) = l.borrow_mut().as_mut() { v.push((key.to_vec(), values[0].to_vec())) });
             return Ok(values[0].clone()); // lone value unchanged (borrowed)
         }
         let mut out: Vec<u8> = values.iter().flat_map(|v| v.iter().copied()).collect();
         if self.sort {
             out.sort();
         }
+        CALL_LOG.with(|l| if let Some(v) = l.borrow_mut().as_mut() { v.push((key.to_vec(), out.clone())) });
         Ok(Cow::Owned(out))
     }
 }
@@ -95,6 +102,42 @@ fn generate_inner<W: Write>(c: &mut Cases<W>, rng: &mut Rng, thorough: bool) {
         let total: usize = srcs.iter().map(|s| s.len()).sum();
         let fail_at = if i % 7 == 3 && total > 0 { Some(rng.below(total as u64) as usize) } else { None };
         emit_case(c, rng, i, &srcs, fail_at);
+    }
+    // sources that share ONE file position (several readers over the same `&File`, or over clones of one
+    // descriptor): the merger advances them in turns, so every block load of every source must position the
+    // file itself.  k handles on the same file: every key comes out once, with k copies of its value.
+    for i in 0..(if thorough { 200 } else { 24 }) {
+        let cfg = gen_cfg(rng, i % 2 == 0, i % 5 == 0);
+        let cfg = FileCfg { levels: if i % 3 == 0 { 0 } else { cfg.levels.min(3) }, ..cfg };
+        let es = bounded_entries(rng, &cfg, 120, 8000);
+        let file = match write_file(&cfg, &es) { WriteOutcome::File(f) => f, _ => continue };
+        let k = 2 + i % 3;
+        let shared = crate::c_hist::SharedSrc(std::rc::Rc::new(RefCell::new(Cursor::new(file))));
+        let mf = LoggingConcat { calls: RefCell::new(Vec::new()), fail_at: None, sort: false };
+        let r = catch(|| -> Result<Vec<(Vec<u8>, Vec<u8>)>, String> {
+            let mut b = Merger::builder(&mf);
+            for _ in 0..k {
+                b.push(Reader::new(shared.clone()).map_err(|e| err_class(&e))?.into_cursor().map_err(|e| err_class(&e))?);
+            }
+            let mut it = b.build().into_stream_merger_iter().map_err(|e| err_class(&e))?;
+            let mut out = Vec::new();
+            while let Some((key, v)) = it.next().map_err(|e| err_class(&e))? {
+                out.push((key.to_vec(), v.to_vec()));
+                if out.len() > es.len() + 2 {
+                    return Err("runaway".into());
+                }
+            }
+            Ok(out)
+        });
+        let expect: Vec<(Vec<u8>, Vec<u8>)> = es.iter().map(|(key, v)| (key.clone(), v.iter().copied().cycle().take(v.len() * k).collect())).collect();
+        c.bump("merge.shared_position_sources", 1);
+        match r {
+            Ok(Ok(out)) if out == expect => {}
+            Ok(Ok(out)) => println!("DIRECT fail merging {} readers that share one file position ({} entries, index_levels {}): {} entries out, first difference at {:?}",
+                                    k, es.len(), cfg.levels, out.len(), out.iter().zip(expect.iter()).position(|(a, b)| a != b)),
+            Ok(Err(e)) => println!("DIRECT fail merging {} readers that share one file position failed: {}", k, e),
+            Err(_) => println!("DIRECT fail merging {} readers that share one file position panicked", k),
+        }
     }
     // small-scope exhaustive: every choice of 3 (thorough: 4) sources among the 8 subsets of a 3-key
     // universe (the empty key, a key and an extension of it), values tagged with their source
